@@ -67,6 +67,10 @@ type Case struct {
 	//          else the triangle (f+2, f, f+1)
 	Ladder string `json:"ladder,omitempty"`
 	N      int    `json:"n,omitempty"`
+	// Vals > 0: float / double properties draw their values from the number ladder, starting at rung
+	// Vals-1 (values.go); Style: spelling of ascii float/double tokens (plyref.TokenStyled)
+	Vals  int `json:"vals,omitempty"`
+	Style int `json:"style,omitempty"`
 }
 
 // resolved fills in the vertex count and the faces of a generated (size-ladder) file.
@@ -174,6 +178,9 @@ func (cs Case) file() (*plyref.File, plyref.Layout) {
 		row := make([][]float64, len(cs.VProps))
 		for k, p := range cs.VProps {
 			row[k] = []float64{value(p.Name, p.Type, i, cs.Big, cs.Ladder != "", cs.Ext)}
+			if cs.Vals > 0 && (p.Type == "float" || p.Type == "double") {
+				row[k][0] = ladderValue(p.Type, cs.Vals-1+7*i+3*k)
+			}
 		}
 		ve.Rows = append(ve.Rows, row)
 	}
@@ -208,7 +215,7 @@ func (cs Case) file() (*plyref.File, plyref.Layout) {
 		}
 		f.Elements = append(f.Elements, fe)
 	}
-	lay := plyref.Layout{CRLF: cs.CRLF, Extra: map[int][]string{}}
+	lay := plyref.Layout{CRLF: cs.CRLF, Style: cs.Style, Extra: map[int][]string{}}
 	for _, e := range cs.Extras {
 		lay.Extra[e.After] = append(lay.Extra[e.After], e.Text)
 	}
@@ -248,9 +255,8 @@ func eq(want, got float64, t plyref.Type, format string) bool {
 		}
 		return d == 0
 	}
-	if format == plyref.ASCII {
-		return d <= math.Abs(want)*1e-15
-	}
+	// a double is the correctly rounded value of its decimal token (what strtod and every conforming
+	// reader return) in ascii, a copy of its eight bytes in the binary encodings: "exactly the values"
 	return d == 0
 }
 
@@ -843,6 +849,7 @@ func run(c *core.Ctx) {
 	k.counts(next)
 	k.mixed(next)
 	k.ladder(next)
+	k.numbers(next)
 	k.permutations(next)
 	k.interleavings(next)
 }
